@@ -16,11 +16,12 @@ RULE = ("T.decode(T.encode(v)) == v for: all values of every exported 1/2-byte t
         "special-float/random values of wider types, strings of length 0..300 and at prefix limits, and generated "
         "Array(int|type|None)/Struct/StructTag/FixedSizeString/n_bytes/IPAddress/Revision compositions to depth 3, plus "
         "ModuleIdentityObject, DATE_AND_TIME, STRINGN, STRINGI; each decode runs on a stream with trailing junk and must stop "
-        "exactly at the end of the encoding; struct dict-vs-sequence encodings compared. distinct = (type shape, value bucket)")
+        "exactly at the end of the encoding; struct dict-vs-sequence encodings compared; every decoded list / dict is then scrambled in place "
+        "and the same bytes are decoded again (the result belongs to the caller: no shared or cached objects). distinct = (type shape, value bucket)")
 ASSUMPTIONS = [
     "domains: ints in range, floats at stored precision (NaN==NaN), strings of characters representable in one code unit of the declared width, bit strings of exact length",
     "derived-length arrays: decode(len_type.encode(n) + encode(values)) == values (docs: encode omits the length)",
-    "n_bytes(-1) and T[None] consume the rest of the buffer by design: decoded without trailing junk",
+    "n_bytes(-1) and T[None] consume the rest of the buffer by design: decoded without trailing junk; the empty value of n_bytes(-1) is not generated (decode of nothing is BufferEmptyError, C08)",
     "over-long inputs to fixed arrays are truncated (docs); over-long bit lists for bit-string arrays are not generated (undocumented)",
 ]
 ANCHORS = [
